@@ -84,6 +84,47 @@ fn run() {
         _ => None,
     });
     check_native("contract_reads_back_exactly_what_it_wrote", own.as_ref() == Some(&want), || format!("{:?} vs {:?}", own, want));
+    // the same through range_keys / range_values and descending (seed C08f)
+    let find = |tag: &str| {
+        trace.iter().flat_map(|e| e.obs.iter()).find_map(|(t, o)| match (t.as_str(), o) {
+            (t_, Obs::Range(r)) if t_ == tag => Some(r.clone()),
+            _ => None,
+        })
+    };
+    let mut rev = want.clone();
+    rev.reverse();
+    let proj = |w_: &Vec<(Vec<u8>, Vec<u8>)>, keys: bool| -> Vec<(Vec<u8>, Vec<u8>)> { w_.iter().map(|(k_, v_)| if keys { (k_.clone(), vec![]) } else { (vec![], v_.clone()) }).collect() };
+    for (tag, exp) in [
+        ("own/desc", rev.clone()),
+        ("own/keys", proj(&want, true)),
+        ("own/keys_desc", proj(&rev, true)),
+        ("own/values", proj(&want, false)),
+        ("own/values_desc", proj(&rev, false)),
+    ] {
+        let got = find(tag);
+        check_native("every_iteration_entry_point_shows_exactly_the_contracts_own_data", got.as_ref() == Some(&exp), || format!("{}: {:?} vs {:?}", tag, got, exp));
+    }
+    // ... and the OTHER contract (whichever of the two addresses sorts lower has the other one's
+    // records right behind its own key space) still iterates over exactly its own record
+    sc::trace_clear();
+    if w.app.execute_contract(user.clone(), k1.clone(), &Script::new().then(Step::RangeOwn { tag: "other".into() }), &[]).is_ok() {
+        let t1 = sc::trace_take();
+        let k1_own = vec![(b"mine".to_vec(), b"k1".to_vec())];
+        for (tag, exp) in [
+            ("other", k1_own.clone()),
+            ("other/desc", k1_own.clone()),
+            ("other/keys", vec![(b"mine".to_vec(), vec![])]),
+            ("other/keys_desc", vec![(b"mine".to_vec(), vec![])]),
+            ("other/values", vec![(vec![], b"k1".to_vec())]),
+            ("other/values_desc", vec![(vec![], b"k1".to_vec())]),
+        ] {
+            let got = t1.iter().flat_map(|e| e.obs.iter()).find_map(|(t, o)| match (t.as_str(), o) {
+                (t_, Obs::Range(r)) if t_ == tag => Some(r.clone()),
+                _ => None,
+            });
+            check_native("every_iteration_entry_point_shows_exactly_the_contracts_own_data", got.as_ref() == Some(&exp), || format!("{}: {:?} vs {:?}", tag, got, exp));
+        }
+    }
     let dump = w.app.dump_wasm_raw(&k0);
     check_native("state_dump_is_the_same_data", dump == want, || format!("{:?}", dump));
     let acc: Vec<_> = w.app.contract_storage(&k0).range(None, None, Order::Ascending).collect();
